@@ -66,8 +66,11 @@ Definition mmap_flag_bits (f : N) : N :=
 
 Inductive resource := RHeap (size : N) | RMapping (size : N) | RFile.
 
-(* where a load can stop (by an error returned with `?` or by a panic: both unwind the same way) *)
+(* where a load can stop, and how: by an error returned with `?`, or by a panic.  Locals are dropped
+   either way; a drop guard acts either way; a handler attached to the Result (map_err) only sees
+   the error *)
 Inductive stop := SMetadata | SOpen | SAcquire | SReadFile | SFreeze | SDeser | SNone.
+Inductive how := ByErr | ByPanic.
 
 Definition stop_eqb (a b : stop) : bool :=
   match a, b with
@@ -86,9 +89,10 @@ Inductive lstep :=
 | LAcquire (r : resource) (why : stop)    (* let x = acquire()?; on success a local owns r *)
 | LPublish (r : resource)                 (* the write of the backend through the raw pointer: r leaves its local *)
 | LArm                                    (* let guard = BackendGuard(..) *)
-| LDisarm.                                (* core::mem::forget(guard) *)
+| LDisarm                                 (* core::mem::forget(guard) *)
+| LOnErr.                                 (* the rest runs as `(..).map_err(|e| { release the backend; e })`: not in the code as it is *)
 
-Record lstate := { l_locals : list resource; l_published : list resource; l_armed : bool }.
+Record lstate := { l_locals : list resource; l_published : list resource; l_armed : bool; l_onerr : bool }.
 
 Definition remove_first (r : resource) (l : list resource) : list resource :=
   (fix go (l : list resource) : list resource :=
@@ -105,20 +109,23 @@ Definition remove_first (r : resource) (l : list resource) : list resource :=
 (* [lrun steps s st]: run the steps; the first fallible step tagged [s] fails.  Returns what is
    left behind that nobody owns (leaked), and, on success, the resources owned by the returned
    case. *)
-Fixpoint lrun (steps : list lstep) (s : stop) (st : lstate) : list resource * option (list resource) :=
+Fixpoint lrun (steps : list lstep) (s : stop) (h : how) (st : lstate) : list resource * option (list resource) :=
   match steps with
   | [] => ([], Some (l_published st))                  (* Ok(uninit.assume_init()): locals are dropped *)
   | x :: rest =>
-      let fail := ((if l_armed st then [] else l_published st), None) in   (* unwinding drops the locals; the guard, if armed, the published backend *)
+      (* the locals are dropped; the published backend by an armed guard, or by an error handler when the stop is an error *)
+      let handled := l_armed st || (l_onerr st && match h with ByErr => true | ByPanic => false end) in
+      let fail := ((if handled then [] else l_published st), None) in
       match x with
-      | LTry why => if stop_eqb why s then fail else lrun rest s st
+      | LTry why => if stop_eqb why s then fail else lrun rest s h st
       | LAcquire r why =>
           if stop_eqb why s then fail
-          else lrun rest s {| l_locals := r :: l_locals st; l_published := l_published st; l_armed := l_armed st |}
+          else lrun rest s h {| l_locals := r :: l_locals st; l_published := l_published st; l_armed := l_armed st; l_onerr := l_onerr st |}
       | LPublish r =>
-          lrun rest s {| l_locals := remove_first r (l_locals st); l_published := r :: l_published st; l_armed := l_armed st |}
-      | LArm => lrun rest s {| l_locals := l_locals st; l_published := l_published st; l_armed := true |}
-      | LDisarm => lrun rest s {| l_locals := l_locals st; l_published := l_published st; l_armed := false |}
+          lrun rest s h {| l_locals := remove_first r (l_locals st); l_published := r :: l_published st; l_armed := l_armed st; l_onerr := l_onerr st |}
+      | LArm => lrun rest s h {| l_locals := l_locals st; l_published := l_published st; l_armed := true; l_onerr := l_onerr st |}
+      | LDisarm => lrun rest s h {| l_locals := l_locals st; l_published := l_published st; l_armed := false; l_onerr := l_onerr st |}
+      | LOnErr => lrun rest s h {| l_locals := l_locals st; l_published := l_published st; l_armed := l_armed st; l_onerr := true |}
       end
   end.
 
@@ -142,20 +149,25 @@ Definition loader_steps (l : loader) (n : N) : list lstep :=
 Definition loader_steps_pinned (l : loader) (n : N) : list lstep :=
   List.filter (fun x => match x with LArm | LDisarm => false | _ => true end) (loader_steps l n).
 
-Definition lstate0 : lstate := {| l_locals := []; l_published := []; l_armed := false |}.
+Definition lstate0 : lstate := {| l_locals := []; l_published := []; l_armed := false; l_onerr := false |}.
+
+(* a plausible rewrite of the guard (seeded change C09-d): the fallible tail wrapped in map_err *)
+Definition loader_steps_map_err (l : loader) (n : N) : list lstep :=
+  List.map (fun x => match x with LArm => LOnErr | y => y end)
+           (List.filter (fun x => match x with LDisarm => false | _ => true end) (loader_steps l n)).
 
 (* effect of a load on the list of live resources: (live resources after the call, whether a
    MemCase owning its backend is returned) *)
-Definition ledger_of (steps : list lstep) (s : stop) (live : list resource) : list resource * bool :=
-  match lrun steps s lstate0 with
+Definition ledger_of (steps : list lstep) (s : stop) (h : how) (live : list resource) : list resource * bool :=
+  match lrun steps s h lstate0 with
   | (leaked, Some owned) => (owned ++ leaked ++ live, true)
   | (leaked, None) => (leaked ++ live, false)
   end.
 
-Definition load_ledger (l : loader) (n : N) (s : stop) (live : list resource) : list resource * bool :=
+Definition load_ledger (l : loader) (n : N) (s : stop) (h : how) (live : list resource) : list resource * bool :=
   match l, s with
   | LFull, SNone => (live, true)          (* load_full returns an owned value: no backend *)
-  | _, _ => ledger_of (loader_steps l n) s live
+  | _, _ => ledger_of (loader_steps l n) s h live
   end.
 
 (* the points where a loader can stop *)
